@@ -8,6 +8,11 @@ import (
 	"strings"
 	"testing"
 
+	"github.com/benoitkugler/webrender/html/document"
+	"github.com/benoitkugler/webrender/html/tree"
+	"github.com/benoitkugler/webrender/utils"
+
+	"verif/internal/rec"
 	"verif/internal/wr"
 )
 
@@ -238,6 +243,9 @@ func TestColdHy(t *testing.T) {
 }
 
 func TestRefFirst(t *testing.T) {
+	if os.Getenv("C15_REFFIRST") == "" {
+		t.Skip()
+	}
 	for i := 120; i < 136; i++ {
 		in := genCase(1, i, "quick")
 		nh := 0
@@ -248,4 +256,24 @@ func TestRefFirst(t *testing.T) {
 		}
 		fmt.Println(i, "refFirst", hashStr(in.Docs[0].HTML)[0]%3 == 0, "pango hy docs", nh)
 	}
+}
+
+// renderRaw is render without recover (debugging aid: shows the stack of a panic).
+func renderRaw(d *cdoc) {
+	fonts, _ := fontsFor(d.Engine)
+	html, err := tree.NewHTML(utils.InputString(d.HTML), "mem://doc/", wr.MemFetcher(d.Files), "")
+	if err != nil {
+		return
+	}
+	if d.UA != "" {
+		html.UAStyleSheet = parseUA(d.UA).css
+	}
+	var sheets []tree.CSS
+	for _, u := range d.UserCSS {
+		css, _ := tree.NewCSSDefault(utils.InputString(u))
+		sheets = append(sheets, css)
+	}
+	doc := document.Render(html, sheets, d.Hints, fonts)
+	r := rec.New()
+	doc.Write(r, 1, nil)
 }
